@@ -40,7 +40,7 @@ fn main() {
             let events: Vec<Ev> = case["events"].as_array().unwrap().iter().map(|e| Ev::parse(e.as_str().unwrap()).unwrap()).collect();
             if case["settle"] == json!(false) {
                 for rep in 0..50 {
-                    let o = run_history_nosettle(&cfg, &events);
+                    let o = run_history_nosettle(&cfg, &events, std::time::Duration::from_millis(case["gap_ms"].as_u64().unwrap_or(0)));
                     if rep == 0 || o.machinery.is_some() {
                         println!("  nosettle run {rep}: machinery={:?} trace={}", o.machinery, json!(o.trace));
                     }
@@ -130,6 +130,11 @@ fn main() {
             plans.push((vec![Kind::Gate, Kind::Gate, Kind::Gate], false, false));
         }
     }
+    // development aid: VERIF_E3_ONLY=nosettle runs only the no-settle pass of the thorough tier
+    let only_nosettle = std::env::var("VERIF_E3_ONLY").map(|v| v == "nosettle").unwrap_or(false);
+    if only_nosettle {
+        plans.clear();
+    }
     // C17: a handler that keeps running for several seconds after shutdown was requested (client stays):
     // close() must stay pending for the whole time and the response must still be delivered. These
     // histories run on their own threads while the explorations below proceed.
@@ -211,22 +216,32 @@ fn main() {
     let mut nosettle = json!(null);
     if ctx.tier == Tier::Thorough {
         let mut runs = 0u64;
+        let started_total = std::sync::atomic::AtomicU64::new(0);
         for mode in modes {
             for kinds in [vec![Kind::Gate], vec![Kind::GateDrop], vec![Kind::Gate, Kind::Gate]] {
                 let cfg = WorldCfg { mode, rt: RtKind::MultiThread(2), kinds: kinds.clone(), with_shutdown: c17, with_half: kinds.len() == 1 };
+                if let Ok(w) = std::env::var("VERIF_E3_NS_WORLD") {
+                    if w != format!("{:?}/{:?}", cfg.mode, cfg.kinds) {
+                        continue;
+                    }
+                }
                 let (hist, _) = all_paths(&cfg, 20000);
                 let counter = std::sync::atomic::AtomicU64::new(0);
+                let started = &started_total;
                 par_for(hist.len(), 8, ctx.seed, |i| {
                     if ctx.elapsed() > budget + 300.0 {
                         return;
                     }
-                    for _rep in 0..2 {
-                        let o = run_history_nosettle(&cfg, &hist[i]);
+                    for gap_ms in [0u64, 3] {
+                        let o = run_history_nosettle(&cfg, &hist[i], std::time::Duration::from_millis(gap_ms));
                         counter.fetch_add(1, std::sync::atomic::Ordering::Relaxed);
+                        if o.trace.iter().any(|t| t["nosettle_board"].as_array().map(|b| !b.is_empty()).unwrap_or(false)) {
+                            started.fetch_add(1, std::sync::atomic::Ordering::Relaxed);
+                        }
                         for f in &o.failures {
                             ctx.report(Violation {
                                 sig: json!({"kind": f.kind, "mode": format!("{:?}", cfg.mode), "settle": false}),
-                                case: json!({"kind":"history","world": cfg.to_json(), "events": hist[i].iter().map(|e| e.render()).collect::<Vec<_>>(), "settle": false}),
+                                case: json!({"kind":"history","world": cfg.to_json(), "events": hist[i].iter().map(|e| e.render()).collect::<Vec<_>>(), "settle": false, "gap_ms": gap_ms}),
                                 expected: f.expected.clone(),
                                 observed: json!({"observed": f.observed, "trace": o.trace}),
                             });
@@ -236,10 +251,10 @@ fn main() {
                 runs += counter.load(std::sync::atomic::Ordering::Relaxed);
             }
         }
-        nosettle = json!({"runs": runs, "note": "events fired back to back; only schedule-independent safety invariants are judged; not exhaustive over schedules"});
+        nosettle = json!({"runs": runs, "runs_in_which_a_handler_started": started_total.load(std::sync::atomic::Ordering::Relaxed), "gaps_ms": [0, 3], "note": "events fired with a fixed gap and no confirmation; only schedule-independent safety invariants are judged; not exhaustive over schedules"});
     }
-    let h2 = if !c17 { vh::h2slice::run(&ctx, &samples) } else { vh::tlsslice::run_c17(&ctx, &samples) };
-    let tls_slice = if !c17 { vh::tlsslice::run_c16(&ctx, &samples) } else { json!(null) };
+    let h2 = if only_nosettle { json!(null) } else if !c17 { vh::h2slice::run(&ctx, &samples) } else { vh::tlsslice::run_c17(&ctx, &samples) };
+    let tls_slice = if !c17 && !only_nosettle { vh::tlsslice::run_c16(&ctx, &samples) } else { json!(null) };
     if mach > 0 && histories == 0 {
         machinery_failure("no history could be executed");
     }
